@@ -212,6 +212,8 @@ class Parser:
             return ('delete', self.parse_unary())
         if tok.kind == 'id' and tok.text == 'throw':
             self.next()
+            if self.at(';'):
+                return ('throw', None)      # rethrow inside a handler
             return ('throw', self.parse_assign())
         if tok.kind == 'p' and tok.text == '(' and self._c_cast_ahead():
             self.next()
